@@ -163,4 +163,98 @@ def snapshotMinMax (skipEmpty : Bool) (r : Rolling FV) (now : Nat) : MinMax :=
 def renderQ0 (m : MinMax) : FV := if m.total == 0 then .fin 0 else m.min
 def renderQ1 (m : MinMax) : FV := if m.total == 0 then .fin 0 else m.max
 
+/-! ### what answers `quantile(q)` for `0 < q < 1`: the three stores of the sketch
+
+`DDSketch` (sketches-ddsketch 0.3.0) keeps a store of positive samples (`v > min_possible`), a store of negative samples
+(`v < -min_possible`, keyed by `-v`) and a count of everything else (zeros, magnitudes up to `min_possible`, NaN).
+A store maps a sample to the bin `key(|v|) = ceil(log_gamma |v|)`, which is monotone in `|v|`; `key_at_rank` walks the
+bins in ascending key order.  The model keeps, per store, the samples themselves and answers with THE SAMPLE whose bin
+is selected; the real sketch answers with that bin's representative `value(key)` (within the relative error alpha of
+every sample of the bin — the part that is floating-point `ln`/`exp` and is checked dynamically at alpha = 1e-4).
+Stores are not collapsed (fewer than `max_buckets` = 32768 bins in use: samples of one store within a factor 700). -/
+
+inductive Cls
+  | neg
+  | zero
+  | pos
+  deriving DecidableEq, Repr
+
+/-- which store `DDSketch::add` picks.  `minU` is `min_possible` (1e-9) in units of the value scale: for `fin n` = n/1024
+    it is 0 (every non-zero n/1024 is above 1e-9), for the small-magnitude stream (`fin n` = n·2^-40) it is 1099. -/
+def clsOf (minU : Nat) : FV → Cls
+  | .fin n => if (minU : Int) < n then .pos else if n < -(minU : Int) then .neg else .zero
+  | .nan => .zero          -- `v > m` and `v < -m` are both false
+  | .pinf => .pos          -- (never reaches the sketch: `Summary::add` returns early)
+  | .ninf => .neg
+
+structure Sketch where
+  neg : List FV := []
+  zero : Nat := 0
+  pos : List FV := []
+  deriving Repr
+
+/-- `DDSketch::add`, the store part -/
+def Sketch.add (minU : Nat) (s : Sketch) (v : FV) : Sketch :=
+  match clsOf minU v with
+  | .pos => { s with pos := s.pos ++ [v] }
+  | .neg => { s with neg := s.neg ++ [v] }
+  | .zero => { s with zero := s.zero + 1 }
+
+/-- `DDSketch::merge`, the store part: `store.merge`, `negative_store.merge`, `zero_count += o.zero_count` -/
+def Sketch.merge (s o : Sketch) : Sketch :=
+  { neg := s.neg ++ o.neg, zero := s.zero + o.zero, pos := s.pos ++ o.pos }
+
+/-- `DDSketch::count` -/
+def Sketch.count (s : Sketch) : Nat := s.pos.length + s.zero + s.neg.length
+
+/-- the bins of a store in ascending key order (insertion sort, structurally recursive so that the kernel evaluates it) -/
+def insertBy (le : FV → FV → Bool) (x : FV) : List FV → List FV
+  | [] => [x]
+  | y :: ys => if le x y then x :: y :: ys else y :: insertBy le x ys
+
+def sortBy (le : FV → FV → Bool) (l : List FV) : List FV := l.foldr (insertBy le) []
+
+/-- `Store::key_at_rank`: the first bin, in ascending key order, at which the running count exceeds `rank`; `max_key`
+    when the rank is beyond the store.  `le` orders the samples by key. -/
+def storeAtRank (le : FV → FV → Bool) (store : List FV) (rank : Nat) : Option FV :=
+  match (sortBy le store)[rank]? with
+  | some x => some x
+  | none => (sortBy le store).getLast?
+
+/-- answer of `quantile(q)` for `0 < q < 1` -/
+inductive QAns
+  | none                   -- empty sketch: `Ok(None)`, rendered as 0
+  | zero                   -- `quantile = 0.0` (the rank falls into the zero count)
+  | bin (v : FV)           -- `±value(key)` of the bin that holds the retained sample `v`
+  deriving DecidableEq, Repr
+
+def QAns.ofOpt : Option FV → QAns
+  | some v => .bin v
+  | Option.none => .none
+
+/-- `DDSketch::quantile(q)` for `0 < q < 1`, given `rank = (q * (count - 1)) as u64`: negative store from its largest
+    key down (`reversed_rank`), then the zero count, then the positive store from its smallest key up -/
+def Sketch.atRank (s : Sketch) (rank : Nat) : QAns :=
+  if s.count == 0 then .none
+  else if rank < s.neg.length then
+    -- keys of the negative store ascend with `-v`
+    QAns.ofOpt (storeAtRank (fun a b => b.le a) s.neg (s.neg.length - rank - 1))
+  else if rank < s.zero + s.neg.length then .zero
+  else QAns.ofOpt (storeAtRank FV.le s.pos (rank - s.zero - s.neg.length))
+
+/-- `rank = (q * (count as f64 - 1.0)) as u64` for `q = num/den` (exact in f64 for the dyadic `q` the harness asks) -/
+def rankOf (num den count : Nat) : Nat := num * (count - 1) / den
+
+/-- the `Summary` of one bucket -/
+def bucketSketch (minU : Nat) (samples : List FV) : Sketch := samples.foldl (Sketch.add minU) {}
+
+/-- the sketch of `RollingSummary::snapshot(now)`: live buckets merged into a fresh summary, latest first -/
+def snapshotSketch (minU : Nat) (r : Rolling FV) (now : Nat) : Sketch :=
+  (liveAt r.maxBucketDuration now r.buckets).foldl (fun acc b => acc.merge (bucketSketch minU b.samples)) {}
+
+/-- the value `render` prints for a configured quantile `num/den` strictly between 0 and 1 -/
+def snapshotQuantile (minU : Nat) (r : Rolling FV) (now : Nat) (num den : Nat) : QAns :=
+  let sk := snapshotSketch minU r now
+  sk.atRank (rankOf num den sk.count)
+
 end MetricsVerif.Rolling
